@@ -100,7 +100,8 @@ def case_strategy(draw: Any, carrier: str) -> Dict[str, Any]:
                                                         ["set-cookie", "s=1"]]), max_size=2))
         app["closing"] = draw(st.sampled_from(
             ["client_first", "client_first", "server_first", "simultaneous", "abrupt_eof",
-             "abrupt_reset"] + (["simultaneous_stalled"] * 2 if carrier == "h2" else [])))
+             "abrupt_reset"] + (["simultaneous_stalled"] * 2 if carrier == "h2" else
+                                ["client_first_drop", "client_first_eof"])))
         app["client_code"] = draw(st.sampled_from([1000, 1001, 3001, 4999, None]))
         app["server_code"] = draw(st.sampled_from([1000, 1001, 3000, 4000]))
     elif decision == "http":
@@ -190,6 +191,15 @@ async def scenario(env: Any, case: Dict[str, Any]) -> Any:
         if closing == "client_first":
             await env.sleep(0.5)
             await ws.send(close_frame(a["client_code"]))
+        elif closing in ("client_first_drop", "client_first_eof"):
+            # the client says why it leaves and is gone before the echo can reach it: still a
+            # client-initiated close, with the client's code
+            await env.sleep(0.5)
+            if closing == "client_first_drop":
+                ws.conn.fail_writes(0)  # the close frame arrives; the echo can not be written
+            ws.conn.send(close_frame(a["client_code"]))
+            if closing == "client_first_eof":
+                ws.conn.eof()
         elif closing == "server_first":
             await env.sleep(2.0)
             await ws.pump()
@@ -329,7 +339,7 @@ def judge(case: Dict[str, Any], obs: Any) -> None:
     code = discs[0].get("code")
     closing = a["closing"]
     cc = a["client_code"] if a["client_code"] is not None else 1005
-    if closing == "client_first":
+    if closing in ("client_first", "client_first_drop", "client_first_eof"):
         want_codes = [cc]
     elif closing == "server_first":
         want_codes = [1000]
